@@ -2,7 +2,7 @@
    tools/genmin.py <from> <to> [profile] [n_examples]   |   tools/genmin.py seed <seed> [profile]
 (run with PYTHONPATH=/verif:/repo /venv/bin/python)"""
 import sys, random, collections, copy
-sys.path[:0]=['/verif','/repo']
+import os; sys.path[:0]=['/verif', os.environ.get('VERIF_REPO','/repo')]
 from rtmon import gen, mt
 from rtmon.htmlnorm import normalize
 
